@@ -80,14 +80,14 @@ c18["technique"] = "TLA+ spec (Redb) checked by TLC; real ReDB-backed servers st
 c18["level_note"] = "Trusted: TLC, redb's own commit atomicity, the harness (runtime drop as process death). Cuts inside a redb commit are not produced; grave goods of one client only; values that collide with the file format (C09's findings) are avoided."
 CHECKS.append(c18)
 
-c20 = session("C20", "6/C20", "The real worterbuch_client library is connected over a unix socket to an in-process server; its handle is cloned to 2-4 tasks whose concurrent calls (all request kinds, typed and generic, the four unsubscribe variants each followed by a server-side probe of the subscription) are recorded per task and TLC decides whether some interleaving of the calls on the one connection explains every result, event stream and probe (Trace_Session with task logs sharing a client). The send buffer has its own implementation-shaped TLA+ model (hand-over channels, two buffers, delayed tasks, command queue) that TLC checks exhaustively for 'only the latest value per key leaves, as the kind it was handed in, nothing else, every buffered value has its timer' plus liveness; the real buffer runs on tokio's paused clock against a recording WbApi and TLC explains the observations with inferred internal steps.")
+c20 = session("C20", "6/C20", "The real worterbuch_client library is connected over a unix socket to an in-process server; its handle is cloned to 2-4 tasks whose concurrent calls (all request kinds, typed and generic, awaited and fire-and-forget, publish streams, the four unsubscribe variants each followed by a server-side probe of the subscription) are recorded per task and TLC decides whether some interleaving of the calls on the one connection explains every result, event stream and probe (Trace_Session with task logs sharing a client). The send buffer has its own implementation-shaped TLA+ model (hand-over channels, two buffers, delayed tasks, command queue) that TLC checks exhaustively for 'only the latest value per key leaves, as the kind it was handed in, nothing else, every buffered value has its timer' plus liveness; the real buffer runs on tokio's paused clock against a recording WbApi and TLC explains the observations with inferred internal steps.")
 c20["engine"] = "tlc-client"
 c20["technique"] = "TLA+ specs (Session over CoreSpec for the calls; SendBuffer for the buffer) checked by TLC; real client library driven by concurrent tasks / paused clock, task logs and send observations validated by TLC"
 c20["level_note"] = ("Trusted: TLC, the client harness (client_drv.rs: mapping of API results to the reply vocabulary, logical clock, marker flush), bin/sess.py. "
                      "Unix socket transport and local_client_wrapper only; acquire_lock, spub, last-will helpers not driven; schedules are sampled.")
 CHECKS.append(c20)
 
-c19 = core("C19", "6/C19", "TLC explores Election.tla - the phases in which the election code blocks on its socket, the inbox, the vote counter with its de-duplication list, every timeout as a free step - against an environment that may send any datagram at any time (votes of members, non-members and the node itself, duplicated, unsolicited; vote requests of better/equal/worse priority; heartbeats of anybody) and checks on every step that a start in leader mode has the quorum of the running round behind it (distinct configured peers, reference counter) and a start in follower mode goes to a configured peer whose heartbeat was received. Real orchestrator processes (cluster sizes 1-7, default and configured quorums, refused configurations) are run against scripted UDP peers and a stub server executable; TLC explains each process' datagrams and server starts/stops as a behaviour of the specification with receive / timeout / heartbeat steps inferred.")
+c19 = core("C19", "6/C19", "TLC explores Election.tla - the phases in which the election code blocks on its socket, the inbox, the vote counter with its de-duplication list, every timeout as a free step - against an environment that may send any datagram at any time (votes of members, non-members and the node itself, duplicated, unsolicited; vote requests of better/equal/worse priority; heartbeats of anybody) and checks on every step that a start in leader mode has the quorum of the running round behind it (distinct configured peers, reference counter) and a start in follower mode goes to a configured peer whose heartbeat was received; the configuration itself changes at run time (config file rewritten, watcher, capacity-one channel, election rounds restarting with the new peers and the recomputed default quorum). Real orchestrator processes (cluster sizes 1-7, default and configured quorums, refused configurations, config files replaced while the node is a candidate, leader or follower) are run against scripted UDP peers and a stub server executable; TLC explains each process' datagrams and server starts/stops as a behaviour of the specification with receive / timeout / heartbeat steps inferred.")
 c19["engine"] = "tlc-election"
 c19["technique"] = "TLA+ spec (Election) checked by TLC with C19 as step properties; black-box orchestrator processes against scripted UDP peers and a stub server, observations validated by TLC (trace validation with inferred internal steps)"
 c19["level_note"] = ("Trusted: TLC, the python peer harness (bin/orch.py: order of its own log, argv of the stub), loopback UDP (ordered, lossless). Safety only; "
